@@ -133,7 +133,7 @@ func c17Match(rg *ref.WG, g *graph.AuthorizationModelGraph, reversed bool) strin
 		if n.NodeType() != graph.OperatorNode {
 			return fmt.Sprintf("%d:%s", n.NodeType(), n.Label())
 		}
-		if depth > 16 {
+		if depth > 64 {
 			return "<operator cycle>"
 		}
 		var ops []string
